@@ -18,6 +18,7 @@ import B3.Props.C05BW
 import B3.Props.C05W
 import B3.Props.C05WM
 import B3.Props.C05M
+import B3.Props.C05MW
 import B3.Simd.WasmProps
 import B3.Simd.CNeonProps
 import B3.Props.C05P
@@ -112,7 +113,8 @@ def verifiedKernelTheorems : List Lean.Name := [
   ``B3.Props.C05WM.asm_msvc_sse2_compress_in_place, ``B3.Props.C05WM.asm_msvc_sse2_compress_xof,
   ``B3.Props.C05WM.asm_msvc_avx512_compress_in_place, ``B3.Props.C05WM.asm_msvc_avx512_compress_xof,
   ``B3.Props.C05M.asm_sse41_hash_many, ``B3.Simd.neon_hash_many_eq,
-  ``B3.Simd.wasm_compress_in_place_eq, ``B3.Simd.wasm_compress_xof_eq, ``B3.Simd.wasm_hash_many_eq]
+  ``B3.Simd.wasm_compress_in_place_eq, ``B3.Simd.wasm_compress_xof_eq, ``B3.Simd.wasm_hash_many_eq,
+  ``B3.Props.C05MW.asm_wgnu_sse41_hash_many]
 
 -- checked when this file is elaborated: the theorem named next to each entry of `verifiedKernels` is one of the above, and vice versa
 #guard verifiedKernels.all fun k => (verifiedKernelTheorems.map toString).contains k.2
